@@ -13,7 +13,7 @@ N = 5
 _SPEC = {}
 for _k in range(9):
     _SPEC['T%d' % _k] = (parser.DINT, 1 + _k % 3)            # 13 auto-allocated tags: attribute numbers beyond 9
-_SPEC.update({'A': (parser.INT, N), 'B': (parser.DINT, 2), 'BIG': (parser.INT, 300), 'S': (parser.SINT, 3)})
+_SPEC.update({'A': (parser.INT, N), 'B': (parser.DINT, 2), 'BIG': (parser.INT, 30), 'S': (parser.SINT, 3)})
 TAGS = sim.setup(_SPEC)
 ucmm.UCMM.parser = parser.CIP()
 CM = device.lookup(6, 1)
@@ -171,17 +171,12 @@ for large in (False, True):
                   'Forward Open session' % nm, outside='')
 
 
-def do_unconnected(a, b0, b1, i, n, v, s0):
-    """unconnected requests: multi-read bundle, a tag larger than one reply, SINT, out-of-range, unknown"""
+def do_multiread(a, b0, b1, i, n, s0):
+    """unconnected bundled multi-tag read: [A[i] x n (valid or beyond the end), B, unknown tag, S]"""
     sim.attribute('A').value[:] = a
     sim.attribute('B').value[:] = [b0, b1]
     sim.attribute('S').value[:] = [s0, 1, 2]
-    big = sim.attribute('BIG')
-    big.value[:] = [k for k in range(300)]
-    big.value[243] = v
-    big.value[244] = b0 % 1000
     sess = register()
-    # bundled multi-tag read: [A[i] x n, B, unknown tag, S]
     msp = ref.multiple([ref.read_tag([{'symbolic': 'A'}, {'element': i}], n), ref.read_tag([{'symbolic': 'B'}], 2),
                         ref.read_tag([{'symbolic': 'nosuch'}], 1), ref.read_tag([{'symbolic': 'S'}], 3)])
     proceed, rpy = talk(rr(sess, msp))
@@ -195,32 +190,50 @@ def do_unconnected(a, b0, b1, i, n, v, s0):
         ok = ok and parts[0]['status'] == 0xff and parts[0]['ext'] == [0x2105]
     ok = ok and parts[1]['status'] == 0 and parts[1]['data'] == [0xc4, 0] + ref.typed(0xc4, [b0, b1])
     ok = ok and parts[2]['status'] != 0 and parts[2]['service'] == 0xcc
-    ok = ok and parts[3]['status'] == 0 and parts[3]['data'] == [0xc2, 0] + ref.typed(0xc2, [s0, 1, 2])
-    # an array larger than one reply: Read Tag Fragmented until status 0
-    got, off, rounds = [], 0, 0
-    while rounds < 4:
-        rounds += 1
-        proceed, rpy = talk(rr(sess, ref.read_frag([{'symbolic': 'BIG'}], 300, off)))
-        r = ref.un_reply(un_rr(rpy, sess))
-        if r['service'] != 0xd2 or r['status'] not in (0, 6) or r['data'][:2] != [0xc3, 0]:
-            return False
-        vals = ref.untyped(0xc3, r['data'][2:])
-        got += vals
-        off += 2 * len(vals)
-        if r['status'] == 0:
-            break
-    exp = [k for k in range(300)]
-    exp[243] = v
-    exp[244] = b0 % 1000
-    return ok and got == exp and rounds == 2
+    return ok and parts[3]['status'] == 0 and parts[3]['data'] == [0xc2, 0] + ref.typed(0xc2, [s0, 1, 2])
 
 
-define(globals(), 'C14', 'unconnected_multiread_and_large_array', AV + ['b0', 'b1', 'i', 'n', 'v', 's0'],
-       "return do_unconnected([%s], b0, b1, i, n, v, s0)" % ", ".join(AV),
-       [" and ".join('-32768 <= %s <= 32767' % x for x in AV), '-2**31 <= b0 < 2**31 and -2**31 <= b1 < 2**31 and -128 <= s0 <= 127',
-        '0 <= i <= %d and 0 <= n <= %d and -32768 <= v <= 32767' % (N, N + 1)], timeout=6000, path_timeout=900, drives=DRIVES, stubs=STUBS,
-       bounds='reference-encoded unconnected session: bundled multi-tag read (INT range valid or beyond the end, DINT, unknown tag, SINT) and a 300-element INT '
-              'array read with Read Tag Fragmented (2 fragments, symbolic values at the fragment boundary); decoded values equal the array model', outside='')
+def do_large_array(v0, v1, v2, budget):
+    """an array larger than one reply (reply budget Logix.MAX_BYTES scaled down): Read Tag Fragmented until status 0"""
+    big = sim.attribute('BIG')
+    exp = [k for k in range(30)]
+    exp[0], exp[budget // 2 - 1], exp[29] = v0, v1, v2
+    big.value[:] = exp
+    saved = logix.Logix.MAX_BYTES
+    logix.Logix.MAX_BYTES = budget
+    try:
+        sess = register()
+        got, off, rounds = [], 0, 0
+        while rounds < 8:
+            rounds += 1
+            proceed, rpy = talk(rr(sess, ref.read_frag([{'symbolic': 'BIG'}], 30, off)))
+            r = ref.un_reply(un_rr(rpy, sess))
+            if r['service'] != 0xd2 or r['status'] not in (0, 6) or r['data'][:2] != [0xc3, 0]:
+                return False
+            vals = ref.untyped(0xc3, r['data'][2:])
+            if not vals or 2 * len(vals) > budget + 1:
+                return False
+            got += vals
+            off += 2 * len(vals)
+            if r['status'] == 0:
+                break
+        return got == exp and rounds == -(-60 // budget)
+    finally:
+        logix.Logix.MAX_BYTES = saved
+
+
+define(globals(), 'C14', 'unconnected_multiread', AV + ['b0', 'b1', 'i', 'n', 's0'], "return do_multiread([%s], b0, b1, i, n, s0)" % ", ".join(AV),
+       [APRE, '-2**31 <= b0 < 2**31 and -2**31 <= b1 < 2**31 and -128 <= s0 <= 127', '0 <= i <= %d and 0 <= n <= %d' % (N, N + 1)],
+       timeout=3000, path_timeout=600, drives=DRIVES, stubs=STUBS,
+       bounds='reference-encoded unconnected bundled multi-tag read (INT range valid or beyond the end, DINT, unknown tag, SINT) with symbolic contents, start and '
+              'count; every embedded reply decoded by the reference decoder carries the values of the array model / the documented error status', outside='')
+for _b in (20, 24, 30):
+    define(globals(), 'C14', 'unconnected_large_array_budget%d' % _b, ['v0', 'v1', 'v2'], "return do_large_array(v0, v1, v2, %d)" % _b,
+           ['-32768 <= v0 <= 32767 and -32768 <= v1 <= 32767 and -32768 <= v2 <= 32767'], tier='quick' if _b == 24 else 'thorough',
+           timeout=3000, path_timeout=600, drives=DRIVES, stubs=STUBS,
+           bounds='an INT[30] array larger than one reply (reply budget Logix.MAX_BYTES scaled down to %d bytes => %d fragments) read with reference-encoded Read Tag '
+                  'Fragmented requests advancing the offset by the bytes received; symbolic values at the first element, a fragment boundary and the last element' % (_b, -(-60 // _b)),
+           outside='the default 488-byte budget with a 300-element tag (same code path, 10x the tracing cost)')
 
 
 # ---- pylogix (independent client implementation), in-process through a fake socket module ----------------------------------------------------
